@@ -914,6 +914,13 @@ pub fn oracle_c11(op: &str, outs: &[String]) -> String {
                             } else if after.mask != b.mask {
                                 return "FAIL:type0-cflist-changed-a-fixed-plan".into();
                             }
+                        } else if cf.starts_with("f:") && after.fixed {
+                            // a type-1 CFList IS the channel mask of a fixed plan afterwards, whatever
+                            // channels it enables (500 kHz channels only, none at all)
+                            let want = unhex(&cf[2..]);
+                            if want.len() == 9 && after.mask.len() >= 9 && after.mask[..9] != want[..] {
+                                return format!("FAIL:type1-cflist-mask-{}-not-applied-(mask={})", hex(&want), hex(&after.mask[..9]));
+                            }
                         } else if cf.starts_with("f:") && !after.fixed && (after.chans != b.chans) {
                             return "FAIL:type1-cflist-changed-a-dynamic-plan".into();
                         } else if cf == "-" && after.chans != b.chans {
